@@ -29,14 +29,15 @@ import (
 // begin / end, different whitespace chunk, path vs basename, pure duplicates (0 and 10).
 var c04Pool = []string{"ab", "a b", "xab", "ab x", " ab", "a/b", "x/ab", "abab", "b", "aXb", "ab", "a  b y"}
 
-// empty, plain, negation-only, two-term
-var c04Queries = []string{"", "ab", "!x", "a b"}
+// empty, plain, negation-only, two-term, two-term with the second match nested inside the first
+var c04Queries = []string{"", "ab", "!x", "a b", "ab b"}
 
 const (
 	c04QEmpty = 0
 	c04QPlain = 1
 	c04QNeg   = 2
 	c04QTwo   = 3
+	c04QNest  = 4
 )
 
 var c04CritName = map[criterion]string{byLength: "length", byChunk: "chunk", byPathname: "pathname", byBegin: "begin", byEnd: "end"}
@@ -113,6 +114,9 @@ func c04RefMatch(q int, line string) bool {
 		return i >= 0 && strings.IndexByte(l[i+1:], 'b') >= 0
 	case c04QNeg:
 		return !strings.Contains(l, "x")
+	case c04QNest:
+		i := strings.IndexByte(l, 'a')
+		return i >= 0 && strings.IndexByte(l[i+1:], 'b') >= 0
 	default:
 		return strings.Contains(l, "a") && strings.Contains(l, "b")
 	}
@@ -132,8 +136,8 @@ type c04Env struct {
 	r        *kit.Run
 	crits    [][]criterion
 	names    []string
-	pats     [2][2][4]*Pattern
-	tbl      [][4][]c04Key // [crit][query][pool index]
+	pats     [2][2][5]*Pattern
+	tbl      [][5][]c04Key // [crit][query][pool index]
 	matchers map[[3]int]*Matcher
 	perms    [6][][]int
 	ref      []c04Ref
@@ -195,7 +199,7 @@ func c04NewEnv(r *kit.Run) *c04Env {
 		sortCriteria = []criterion{byScore, c}
 		for fw := 0; fw < 2; fw++ {
 			for wp := 0; wp < 2; wp++ {
-				for q := 1; q < 4; q++ {
+				for q := 1; q < 5; q++ {
 					for pi, s := range c04Pool {
 						it := Item{text: util.ToChars([]byte(s))}
 						if res, _, _ := e.pats[fw][wp][q].MatchItem(&it, wp == 1, slab); res != nil {
@@ -206,7 +210,7 @@ func c04NewEnv(r *kit.Run) *c04Env {
 			}
 		}
 	}
-	e.tbl = make([][4][]c04Key, len(e.crits))
+	e.tbl = make([][5][]c04Key, len(e.crits))
 	for ci, crit := range e.crits {
 		sortCriteria = crit
 		fwB, wpB := c04Derive(crit)
@@ -248,6 +252,60 @@ func c04NewEnv(r *kit.Run) *c04Env {
 						r.Violation("key:score-slot", d)
 					}
 				}
+				// the matched span aggregated independently over the terms (min begin, min end, max end), and the
+				// begin / end / chunk keys recomputed from it (the formulas are the implementation's; the aggregation is not)
+				if q != c04QNeg {
+					minB, minE, maxE, valid := 1<<30, 1<<30, 0, false
+					for _, term := range strings.Fields(c04Queries[q]) {
+						chars := util.ToChars([]byte(s))
+						ar, _ := algo.FuzzyMatchV2(false, true, fwB, &chars, []rune(term), wpB, slab)
+						if ar.Start >= 0 && ar.Start < ar.End {
+							valid = true
+							if ar.Start < minB {
+								minB = ar.Start
+							}
+							if ar.End < minE {
+								minE = ar.End
+							}
+							if ar.End > maxE {
+								maxE = ar.End
+							}
+						}
+					}
+					if valid {
+						rs := []rune(s)
+						white := 0
+						for i, ch := range rs {
+							white = i
+							if i == minB || !unicode.IsSpace(ch) {
+								break
+							}
+						}
+						trim := len([]rune(strings.TrimFunc(s, unicode.IsSpace)))
+						for k := 1; k < len(crit); k++ {
+							var want int
+							switch crit[k] {
+							case byBegin:
+								want = minE - white
+							case byEnd:
+								want = 65535 - 65535*(maxE-white)/(trim+1)
+							case byChunk:
+								b, e2 := minB, maxE
+								for ; b >= 1 && !unicode.IsSpace(rs[b-1]); b-- {
+								}
+								for ; e2 < len(rs) && !unicode.IsSpace(rs[e2]); e2++ {
+								}
+								want = e2 - b
+							default:
+								continue
+							}
+							if int(res.points[3-k]) != want {
+								d["slot"], d["want"], d["criterion"], d["span(minBegin,minEnd,maxEnd)"] = 3-k, want, c04CritName[crit[k]], []int{minB, minE, maxE}
+								r.Violation("key:span-aggregation:"+c04CritName[crit[k]], d)
+							}
+						}
+					}
+				}
 				for k := 1; k < len(crit); k++ {
 					got := res.points[3-k]
 					if crit[k] == byLength {
@@ -263,7 +321,7 @@ func c04NewEnv(r *kit.Run) *c04Env {
 				}
 			}
 			e.tbl[ci][q] = keys
-			if report && (q == c04QPlain || q == c04QTwo) {
+			if report && (q == c04QPlain || q == c04QTwo || q == c04QNest) {
 				// vacuity: which comparator level separates the pool pairs under this list
 				for a := range keys {
 					for b := a + 1; b < len(keys); b++ {
@@ -438,7 +496,7 @@ func (e *c04Env) check(c *c04Case) {
 			}
 		}
 	}
-	sorted := c.sort && (c.q == c04QPlain || c.q == c04QTwo)
+	sorted := c.sort && (c.q == c04QPlain || c.q == c04QTwo || c.q == c04QNest)
 	mode := "unsorted"
 	if c.q == c04QEmpty {
 		mode = "empty-query"
@@ -604,7 +662,7 @@ func (e *c04Env) configs(c *c04Case, plan int, parts []int) {
 		for q := range c04Queries {
 			c.q = q
 			for _, doSort := range []bool{true, false} {
-				if plan >= 1 && ncrit > 1 && !(doSort && (q == c04QPlain || q == c04QTwo)) {
+				if plan >= 1 && ncrit > 1 && !(doSort && (q == c04QPlain || q == c04QTwo || q == c04QNest)) {
 					continue
 				}
 				c.sort = doSort
